@@ -257,7 +257,14 @@ func (b AcraBlock) EncryptedDataEncryptionKeyLength() int {
 
 // Decrypt AcraBlock using all keys sequentially until successful decryption and context
 func (b AcraBlock) Decrypt(keys [][]byte, context []byte) ([]byte, error) {
+	if len(b) < AcraBlockMinSize {
+		return nil, ErrInvalidAcraBlock
+	}
 	keySize := b.EncryptedDataEncryptionKeyLength()
+	if len(b) < AcraBlockMinSize+keySize {
+		// the key length field points past the end of the block
+		return nil, ErrInvalidAcraBlock
+	}
 	encryptedKey := b[EncryptedDataEncryptionKeyPosition : EncryptedDataEncryptionKeyPosition+keySize]
 	encryptedData := b[AcraBlockMinSize+keySize:]
 	keyEncryptionKeyBackend := b.KeyEncryptionBackend()
@@ -307,9 +314,12 @@ func ExtractAcraBlockFromData(data []byte) (int, AcraBlock, error) {
 		validMask <<= 1
 	}
 	restLength := binary.LittleEndian.Uint64(data[RestAcraBlockLengthPosition : RestAcraBlockLengthPosition+RestAcraBlockLengthSize])
-	if len(data) >= int(restLength+TagBeginSize) {
-		validMask <<= 1
+	// the length field counts everything after the tag: at least the rest of the header, at most what we have.
+	// Compare in the unsigned domain: converted to int first, a huge value turns negative and passes any check.
+	if restLength < AcraBlockMinSize-TagBeginSize || restLength > uint64(len(data)-TagBeginSize) {
+		return 0, nil, ErrInvalidAcraBlock
 	}
+	validMask <<= 1
 	_, ok := keyEncryptionBackendTypeMap[KeyEncryptionBackendType(data[KeyEncryptionKeyTypePosition])]
 	if ok {
 		validMask <<= 1
@@ -321,8 +331,8 @@ func ExtractAcraBlockFromData(data []byte) (int, AcraBlock, error) {
 	if validMask != validAcraBlockMask {
 		return 0, nil, ErrInvalidAcraBlock
 	}
-	length := TagBeginSize + restLength
-	return int(length), AcraBlock(data[:length]), nil
+	length := TagBeginSize + int(restLength)
+	return length, AcraBlock(data[:length]), nil
 
 }
 
